@@ -485,6 +485,9 @@ CACHE_LIT = {'none': '(mkCache None false false)', 'diag': '(mkCache None false 
              'cmB': '(mkCache (Some 1) true true)'}
 OPTIONS = [(cf, om, wh, pc) for cf in (None, True, False) for om in (None, 0) for wh in ('fidelity', 'generalized')
            for pc in (False, True)]
+# thorough: also supply the OTHER grid than the one cached on the inputs
+OPTIONS_THOROUGH = OPTIONS + [(cf, 1, wh, pc) for cf in (None, True, False) for wh in ('fidelity', 'generalized')
+                              for pc in (False, True)]
 
 
 def prepare(p, state):
@@ -667,7 +670,7 @@ def run_decisions(ctx, out):
         pulses = [spec_pulse(s) for s in specs]
         rows = []
         for states in state_assignments(r, len(pulses), ctx.thorough):
-            for opt in OPTIONS:
+            for opt in (OPTIONS_THOROUGH if ctx.thorough else OPTIONS):
                 with warnings.catch_warnings():
                     warnings.simplefilter('ignore')
                     lit, info = observe_outcome(pulses, states, opt)
